@@ -124,7 +124,10 @@ class ComparisonResult:
     for name in utils.get_output_tensor_names(
         self._reference_model, signature_key
     ):
-      output_tensor_results[name] = result.pop(name)
+      # A tensor can be listed more than once (e.g. returned under two output
+      # names, or an input that is also an output); it is filed only once.
+      if name in result:
+        output_tensor_results[name] = result.pop(name)
 
     constant_tensor_results = {}
     # Only get constant tensors from the main subgraph of the signature.
@@ -136,7 +139,8 @@ class ComparisonResult:
         self._reference_model,
         subgraph_index,
     ):
-      constant_tensor_results[name] = result.pop(name)
+      if name in result:
+        constant_tensor_results[name] = result.pop(name)
 
     self._comparison_results[signature_key] = SingleSignatureComparisonResult(
         error_metric=error_metric,
